@@ -168,14 +168,18 @@ def shard_mutate(shard):
         first = bytes(instr.serialize())
         fresh = codec.make_instr(cls, kinds, b)
         names = [fd.name for fd in dataclasses.fields(cls)[3:]]
-        for nm in names:
-            cur, new = getattr(instr, nm), getattr(fresh, nm)
-            if isinstance(cur, (ArrayEntry, ArraySlice)):
-                for attr in ("address", "index", "start", "stop"):
-                    if hasattr(cur, attr):
-                        setattr(cur, attr, getattr(new, attr))        # in-place, as _replace_constants does
-            else:
-                setattr(instr, nm, new)
+        try:
+            for nm in names:
+                cur, new = getattr(instr, nm), getattr(fresh, nm)
+                if isinstance(cur, (ArrayEntry, ArraySlice)):
+                    for attr in ("address", "index", "start", "stop"):
+                        if hasattr(cur, attr):
+                            setattr(cur, attr, getattr(new, attr))        # in-place, as _replace_constants does
+                else:
+                    setattr(instr, nm, new)
+        except (AttributeError, TypeError):
+            count(part, "operands-immutable")          # nothing can go stale if operands cannot be changed in place
+            continue
         part["evals"] += 1
         part["distinct"] += 1
         second = bytes(instr.serialize())
